@@ -57,7 +57,7 @@ def scheme_rules(ctx):
 def C01(ctx):
     ctx.only = ("K1.", "K4.reclaim-after-unlink", "HP.protocol", "HP.active-gather", "HP.delete-licensed", "HP.validate-after-protect",
                 "HE.protocol", "HE.active-gather", "HE.delete-licensed", "HE.era-after-load", "HE.exception-safety", "HE.retire", "HE.shared-slot",
-                "EBR.protocol", "EBR.orphans", "EBR.constants", "EBR.activity", "QSBR.protocol", "QSBR.constants", "QSBR.activity",
+                "EBR.protocol", "EBR.orphans", "EBR.constants", "EBR.activity", "EBR.scan-cursor", "QSBR.protocol", "QSBR.constants", "QSBR.activity",
                 "STAMP.protocol", "STAMP.delete-licensed", "LFRC.", "K3.", "K13.")
     k1_rules(ctx, "C01")
     reclaim.reclaim_after_unlink(ctx, [".hpp"])
@@ -144,6 +144,7 @@ def C08(ctx):
     harris.erase_protocol(ctx)
     harris.insert_protocol(ctx)
     harris.find_protocol(ctx)
+    harris.iterator_bucket_agreement(ctx)
     harris.use_after_move(ctx, FILES["C08"])
     return ("Decides structural necessary conditions of the Harris-Michael set/map: total order of the search predicate (exhaustive), mark-then-"
             "unlink erase protocol with per-attempt validation of the expected value, insert protocol (next before link, same expected, searched "
@@ -157,7 +158,8 @@ def C09(ctx):
     harris.ordering_predicates(ctx)
     harris.iterator_rules(ctx)
     harris.find_protocol(ctx)
-    ctx.only_skip = ("HM.insert", "HM.bucket")
+    harris.iterator_bucket_agreement(ctx)
+    ctx.only_skip = ("HM.insert",)
     harris.erase_protocol(ctx)
     harris.use_after_move(ctx, FILES["C09"])
     return ("Decides: the re-scan predicate is a total order (exhaustive finite evaluation); iterators obtain successors through acquire_if_equal, "
@@ -199,8 +201,10 @@ def C11(ctx):
 
 def C17(ctx):
     ctx.only = ("K1.", "TBL.", "HP.thread-exit", "HP.block-init", "HP.active-gather", "HE.thread-exit", "HE.block-init", "HE.active-gather",
-                "EBR.thread-exit", "EBR.block-init", "EBR.activity", "EBR.orphans", "QSBR.thread-exit", "QSBR.block-init", "QSBR.activity",
-                "STAMP.thread-exit", "LFRC.thread-exit", "LIST.")
+                "EBR.thread-exit", "EBR.block-init", "EBR.activity", "EBR.scan-cursor", "EBR.orphans", "QSBR.thread-exit", "QSBR.block-init", "QSBR.activity",
+                "STAMP.thread-exit", "LFRC.thread-exit", "LIST.",
+                # safety / conservation across thread exit: the scans adopt abandoned nodes before gathering, orphans are re-filed, ...
+                "HP.protocol", "HE.protocol", "EBR.protocol", "QSBR.protocol", "STAMP.protocol", "STAMP.handback-chain")
     k1_rules(ctx, "C17")
     scheme_rules(ctx)
     return ("Decides: control blocks are adopted (acquire-CAS from free) before a new one is allocated and released (release-store) at thread exit after the "
